@@ -35,6 +35,8 @@ def _run(ctx, name, n_quick, n_thorough, make, check):
         if detail and bad < 3:
             _viol(ctx, name, detail, sc)
             bad += 1
+            if bad >= 3:
+                break
     ctx.support[name] = dict(cases=n, nontrivial=nontriv, failures=bad)
 
 
@@ -400,3 +402,215 @@ def cyclic_oracle(ctx):
 CHECKS = {"identity": identity_check, "interleave": interleave_check, "threads": thread_check,
           "match_truth": match_truth_check, "concat": concat_check, "untraced": untraced_check,
           "cyclic": cyclic_check}
+
+
+# ---------------- C06: read-only calls leave the document and the path as they were ----------------
+
+def snapshot(v, stack=None):
+    """identity, order and content of every container reachable (cycle-safe)"""
+    stack = stack or []
+    if isinstance(v, dict):
+        if any(v is s for s in stack):
+            return ("cycle", id(v))
+        stack.append(v)
+        r = ("dict", id(v), [(k, snapshot(x, stack)) for k, x in v.items()])
+        stack.pop()
+        return r
+    if isinstance(v, list):
+        if any(v is s for s in stack):
+            return ("cycle", id(v))
+        stack.append(v)
+        r = ("list", id(v), [snapshot(x, stack) for x in v])
+        stack.pop()
+        return r
+    return (type(v).__name__, repr(v))
+
+
+def snapshot_check(sc):
+    from observe import make_trace
+    doc = dec(sc["doc"])
+    b = Builder([])
+    expr = b.steps(sc["path"])
+    twin = Builder([]).steps(sc["path"])
+    src = doc
+    if sc.get("src"):
+        ms = list(itertools.islice(find_matches(Builder([]).steps(sc["src"]["path"]), doc), sc["src"]["k"] + 1))
+        if len(ms) > sc["src"]["k"]:
+            src = ms[sc["src"]["k"]]
+    before = snapshot(doc)
+    s0 = str(twin)
+    first = None
+    nontrivial = False
+    for rnd, api in enumerate(sc["calls"]):
+        trace = make_trace([]) if sc["traced"][rnd] else None
+        b.tracer = trace
+        try:
+            if api == "find":
+                out = ("vals", [json.dumps(enc(x)) for x in itertools.islice(find(expr, src, trace=trace), 200)])
+            elif api == "find_matches":
+                out = ("vals", [json.dumps(enc(m.data)) for m in itertools.islice(find_matches(expr, src, trace=trace), 200)])
+            elif api == "get_match":
+                m = get_match(expr, src, must_match=False, trace=trace)
+                out = ("first", None if m is None else json.dumps(enc(m.data)))
+            else:
+                out = ("first", json.dumps(enc(get(expr, src, default="<none>", trace=trace))))
+        except TreepathException as e:
+            out = ("exc", tuple(exc_chain(e)))
+        after = snapshot(doc)
+        if after != before:
+            return f"the document changed during read-only call #{rnd} ({api})", True
+        if out[0] == "vals":
+            key = ("vals", out[1])
+            head = out[1][0] if out[1] else "<none>"
+        elif out[0] == "first":
+            key = None
+            head = out[1] if out[1] is not None else "<none>"
+            if out[1] == json.dumps("<none>"):
+                head = "<none>"
+        else:
+            key, head = out, out
+        if first is None:
+            first = (key, head)
+        else:
+            if key is not None and first[0] is not None and key != first[0]:
+                return f"call #{rnd} ({api}) selects differently from the first evaluation of the same path object", True
+            if first[1] != head and not (isinstance(head, tuple) or isinstance(first[1], tuple)):
+                return f"call #{rnd} ({api}): first result {head} differs from the first evaluation {first[1]}", True
+        nontrivial = nontrivial or (out[0] != "exc" and head != "<none>")
+        if str(expr) != s0:
+            return f"the path renders {str(expr)!r} after call #{rnd}, a never-evaluated twin renders {s0!r}", True
+    return None, nontrivial
+
+
+def snapshot_oracle(ctx):
+    def make(rng):
+        sc = gen.gen_query(rng, "all", rng.choice(["mixed", "has", "custom"]), with_src=rng.random() < 0.25)
+        n = rng.randint(2, 5)
+        out = {"doc": sc["doc"], "path": sc["path"], "calls": [rng.choice(["find", "find_matches", "get_match", "get"]) for _ in range(n)],
+               "traced": [rng.random() < 0.5 for _ in range(n)]}
+        if sc.get("src"):
+            out["src"] = sc["src"]
+        return out
+    _run(ctx, "snapshot", 2500, 60000, make, snapshot_check)
+
+
+# ---------------- C16: only documented errors, printable ----------------
+
+def documented_check(sc):
+    import treepath
+    from treepath import set_, set_match, pop, pop_match
+    doc = dec(sc["doc"])
+    b = Builder([])
+    allowed = (treepath.TreepathException,)
+    seen_error = False
+    for op in sc["ops"]:
+        try:
+            k = op[0]
+            if k == "q":
+                expr = b.steps(op[2])
+                src = doc
+                if op[3] is not None:
+                    ms = list(itertools.islice(find_matches(b.steps(op[3][0]), doc), op[3][1] + 1))
+                    if len(ms) > op[3][1]:
+                        src = ms[op[3][1]]
+                if op[1] == "find":
+                    list(itertools.islice(find(expr, src), 100))
+                elif op[1] == "find_matches":
+                    list(itertools.islice(find_matches(expr, src), 100))
+                elif op[1] == "get_match":
+                    get_match(expr, src, must_match=op[4])
+                else:
+                    if op[4]:
+                        get(expr, src)
+                    else:
+                        get(expr, src, default=None)
+            elif k == "set":
+                (set_ if op[4] else set_match)(b.steps(op[1]), dec(op[2]), doc, cascade=op[3])
+            elif k == "pop":
+                if op[2]:
+                    pop(b.steps(op[1]), doc)
+                else:
+                    pop_match(b.steps(op[1]), doc, must_match=op[3])
+            elif k == "get_sd":
+                get(b.steps(op[1]), doc, default=dec(op[2]), store_default=True)
+        except allowed as e:
+            seen_error = True
+            s1, s2, r1, r2 = str(e), str(e), repr(e), repr(e)
+            if s1 != s2 or r1 != r2:
+                return f"{type(e).__name__} renders differently on repeated str()/repr()", True
+            if not s1 or type(e).__name__ not in s1:
+                return f"{type(e).__name__} renders as {s1[:80]!r}", True
+            if "$" not in s1:
+                return f"{type(e).__name__} does not name the path involved: {s1[:120]!r}", True
+        except StopIteration:
+            pass
+        except Exception as e:  # noqa
+            return f"{type(e).__name__} escaped from {op[0]}/{op[1] if op[0] == 'q' else ''}: {str(e)[:120]}", True
+    return None, seen_error
+
+
+def documented_oracle(ctx):
+    import gen_mut
+
+    def make(rng):
+        doc = gen.gen_doc(rng)
+        ops = []
+        shadow = dec(enc(doc))
+        for _ in range(rng.randint(1, 6)):
+            r = rng.random()
+            if r < 0.5:
+                q = gen.gen_query(rng, "all", rng.choice(["mixed", "has", "custom"]))
+                src = [q["src"]["path"], q["src"]["k"]] if q.get("src") else None
+                ops.append(["q", q["api"], q["path"], src, rng.random() < 0.5])
+            elif r < 0.75:
+                steps = gen_mut.target_path(rng, shadow)[0] if rng.random() < 0.6 else gen_mut.cascade_path(rng, shadow)
+                ops.append(["set", steps, enc(rng.choice(gen_mut.VALS)), rng.random() < 0.5, rng.random() < 0.5])
+            elif r < 0.92:
+                ops.append(["pop", gen_mut.target_path(rng, shadow)[0], rng.random() < 0.5, rng.random() < 0.5])
+            else:
+                ops.append(["get_sd", gen_mut.cascade_path(rng, shadow), enc(rng.choice(gen_mut.VALS))])
+        return {"doc": enc(doc), "ops": ops}
+    _run(ctx, "documented_errors", 2500, 60000, make, documented_check)
+
+
+
+def slice_mutation_check(sc):
+    """a slice step iterates a copy of the selected items: shrinking the list between two
+    next() calls must not make a bare IndexError (or anything else) escape"""
+    import treepath
+    from treepath import pop
+    doc = dec(sc["doc"])
+    b = Builder([])
+    it = find_matches(b.steps(sc["path"]), doc)
+    n = 0
+    try:
+        for k in range(sc["calls"]):
+            try:
+                next(it)
+                n += 1
+            except StopIteration:
+                break
+            if k in sc["pops"]:
+                try:
+                    pop(b.steps(sc["pop_path"]), doc, default=None)
+                except treepath.TreepathException:
+                    pass
+    except treepath.TreepathException:
+        pass
+    except Exception as e:  # noqa
+        return f"{type(e).__name__} escaped from next() after the sliced list shrank: {str(e)[:100]}", True
+    return None, n > 1
+
+
+def slice_mutation_oracle(ctx):
+    def make(rng):
+        n = rng.randint(2, 6)
+        doc = {"a": [rng.choice([0, 1, {"x": 1}, [2]]) for _ in range(n)], "b": 1}
+        sl = ["s", rng.choice([None, 0, 1]), rng.choice([None, n, -1]), rng.choice([None, 1, 2, -1])]
+        tail = rng.choice([[], [["gwc"]], [["k", "x"]]])
+        return {"doc": enc(doc), "path": [["k", "a"], sl] + tail, "calls": rng.randint(2, 8),
+                "pops": sorted(rng.sample(range(8), rng.randint(1, 4))), "pop_path": [["k", "a"], ["i", rng.choice([0, -1])]]}
+    _run(ctx, "slice_under_mutation", 300, 6000, make, slice_mutation_check)
+
+
+CHECKS.update({"snapshot": snapshot_check, "documented_errors": documented_check, "slice_under_mutation": slice_mutation_check})
